@@ -17,3 +17,31 @@ PLAN["C20"] = dict(
     quick=dict(enum={"rel": 4, "dbg": 2}, proptest={"rel": (8, 20000), "dbg": (4, 10000)}),
     thorough=dict(enum={"rel": 16, "dbg": 4}, proptest={"rel": (16, 300000), "dbg": (8, 100000)}),
 )
+
+PLAN["C11"] = dict(
+    rule="enumeration: every partition (set of disjoint intervals, adjacent ones included) over the small universe x every query interval x every probe character, each partition also rebuilt by try_from_iter on reversed/rotated lists, all ordered pairs of intervals for try_from_iter; "
+         "generation: tapes decoded into 0-8 sorted disjoint intervals (adjacency, 0 and 0x2FFFF over-weighted), 1-6 query sets placed on/next to interval boundaries, and a shuffled list with 0-2 extra possibly-overlapping sets. "
+         "Non-trivial = partition with >= 2 intervals and a query set with an end point in a gap; distinct = digest of (partition, queries, list) / by construction.",
+    oracle="R6 linear scans written from the definitions: class_of_char, interval_cover/class_of_set/good_char_set (CoveredBy(i) iff inside interval i, DisjointFromAll iff meets none, else Overlaps/AmbiguousCharSet), empty_complement, pick_complement, num_classes, valid_class_id, class_ids, picks, pick, get/start/end/interval/ranges; try_from_iter Ok iff pairwise disjoint and same intervals as push",
+    assumptions=COMMON_ASSUMPTIONS + ["partitions are compared by their intervals and emptiness of the complement; the complement witness only has to be a member of the complement (or MAX+1)"],
+    quick=dict(enum={"rel": 8, "dbg": 4}, proptest={"rel": (8, 15000), "dbg": (4, 8000)}),
+    thorough=dict(enum={"rel": 16, "dbg": 8}, proptest={"rel": (16, 200000), "dbg": (8, 60000)}),
+)
+
+PLAN["C12"] = dict(
+    rule="enumeration: all ordered pairs of partitions over the universe n=3 (n=4 thorough) and all ordered triples over n=2; generation: tapes decoded into a partition, a second one derived from the first one's boundaries (nested / interleaved / adjacent / identical pieces) or independent, plus 0-2 more for merge_partition_list. "
+         "Non-trivial = some interval of p1 and some interval of p2 overlap without being equal, or are adjacent; distinct = digest of the partition list / by construction.",
+    oracle="label(x) = tuple of the classes of x in the inputs (linear scan); result intervals sorted and disjoint; labels constant inside every result interval and never all-complement; every character outside the result has the all-complement label; two adjacent result intervals never share a label (maximality, interval reading of 'coarsest', DESIGN.md section 4/C12); witness in the complement or MAX+1; merge with the empty partition / itself / in the other order and merge_partition_list under reversal and rotation give the same intervals",
+    assumptions=COMMON_ASSUMPTIONS + ["'coarsest common refinement' is read as maximality among interval partitions, which is what the crate documents and what the statement's 'sorted, disjoint, maximal' says"],
+    quick=dict(enum={"rel": 8, "dbg": 2}, proptest={"rel": (8, 15000), "dbg": (4, 8000)}),
+    thorough=dict(enum={"rel": 16, "dbg": 4}, proptest={"rel": (16, 200000), "dbg": (8, 60000)}),
+)
+
+PLAN["C15"] = dict(
+    rule="enumeration: all ranges with bounds in 0..=24 (0..=40 thorough), finite and infinite, all ordered pairs, scale factors 0..=8; generation: tapes decoded into two ranges (small, medium, huge and near-u32::MAX bounds; finite, infinite, narrow) and three scale factors. "
+         "Non-trivial = neither range is a point and the first is finite, so right_mul_is_exact is decided by the gap inequality rather than a special case; distinct = digest of (r, s, factors) / by construction.",
+    oracle="ranges read as sets of naturals over u128: contains/includes = membership/inclusion; add = set of sums; scale(k) = k-fold sum; shift = predecessors with 0 kept; mul must contain every product (all products in the small scope, corner products otherwise); right_mul_is_exact(r,s) <=> the union over y in s of [y*lo, y*hi], computed as an explicit union of intervals, equals the observed r.mul(s); a panic is accepted only when its message says arithmetic overflow and a natural intermediate exceeds u32",
+    assumptions=COMMON_ASSUMPTIONS + ["a finite LoopRange's end is observed through contains() (galloping search), its start through start()", "when more than 4096 blocks would be needed the union is shown not to be an interval by its first gap (never happens in the enumerated scope)"],
+    quick=dict(enum={"rel": 8, "dbg": 4}, proptest={"rel": (8, 30000), "dbg": (4, 10000)}),
+    thorough=dict(enum={"rel": 16, "dbg": 8}, proptest={"rel": (16, 400000), "dbg": (8, 100000)}),
+)
